@@ -32,6 +32,7 @@ func (r *Run) libCall(st *State, fr *Frame, name string, recv Val, args []Val, s
 		}
 	}
 	e.libUsed[name] = true
+	r.atCall(st, fr, name, args, sig, in)
 	ret := func(vs ...Val) []*State {
 		r.setResult(st, fr, dst, vs)
 		return nil
@@ -108,6 +109,7 @@ func (r *Run) libCall(st *State, fr *Frame, name string, recv Val, args []Val, s
 		err := e.freshConst("ctxerr", SAny)
 		st.assume(Eq(Not(Eq(err, NilOf(SAny))), r.cancelled(st, ctx)))
 		st.Ghost["errof:"+err.S] = ctx
+		st.Ghost["ctxerr.last:"+ctx.S] = err
 		return ret(err)
 	case "(context.Context).Done":
 		ctx := e.asTerm(recv, SAny)
@@ -184,6 +186,7 @@ func (r *Run) libCall(st *State, fr *Frame, name string, recv Val, args []Val, s
 		st.assume(pos)
 		st.assume(lo)
 		st.assume(hi)
+		st.Ghost["rand.last"] = res
 		return ret(res)
 	}
 	if strings.HasPrefix(name, "(*sync/atomic.") {
